@@ -596,6 +596,11 @@ func (r *Run) doUser(a string) {
 	case "scale":
 		n, _ := strconv.Atoi(arg)
 		err = s.Scale(w, int32(n))
+	case "scale0then":
+		// the user scales the workload to zero and, a little later, back up: the release continues on a workload whose
+		// status still says "no pods" while its spec asks for some
+		err = s.Scale(w, 0)
+		r.userQueue = append(r.userQueue, "noop", "scale:"+arg)
 	case "pause", "unpause":
 		ro := &v1beta1.Rollout{}
 		ro.Namespace, ro.Name = s.NS, s.RolloutName()
